@@ -20,7 +20,7 @@ func init() { core.Register(c02{}) }
 func (c02) ID() string    { return "C02" }
 func (c02) Level() string { return "exploration" }
 func (c02) Rule() string {
-	return "all ordered triples (a,b,c) of a version pool (K=144 quick, 224 thorough: special equivalence-class mates, tilde chains, long digit runs, epochs, all strings of length<=1 over 019Aa~+-.: as upstream and revision, seeded random and near versions) checked for reflexivity, antisymmetry, transitivity and congruence of equal elements using only version.Compare; slices of 0..200 pool elements sorted with sort.Sort(version.Slice) from 3 shuffles. Non-trivial = triple with pairwise different texts, or slice with >=2 distinct elements; distinct by hash."
+	return "all ordered triples (a,b,c) of a version pool (K=156 quick, 236 thorough: special equivalence-class mates, tilde chains, long digit runs, epochs, all strings of length<=1 over 019Aa~+-.: as upstream and revision, seeded random and near versions) checked for reflexivity, antisymmetry, transitivity and congruence of equal elements using only version.Compare; slices of 0..200 pool elements sorted with sort.Sort(version.Slice) from 3 shuffles. Non-trivial = triple with pairwise different texts, or slice with >=2 distinct elements; distinct by hash."
 }
 func (c02) Assumptions() []string {
 	return []string{"no reference order is used: laws only", "sort.Sort from the Go standard library"}
@@ -76,6 +76,9 @@ var c02Specials = []string{
 	"1.0-+5", "1.0-5", "1.0-05", "1.0-+", "1.0-5.", "1.0-5+", "1.0-+05", "1.0-+5.",
 	"2-18446744073709551617", "2-1+b1", "2-1.0", "1.10000000000000000000a", "1.20000000000000000000", "1.1553255926290448384", "1.18446744073709551617", "1.1a",
 	"0:1a:", "0:1a", "0:1a5", "0:1a:-1", "0:1a5-1", "0:1a-1", "0:1:2-1", "0:1:", "0:1:5",
+	// zeros in front of a non-digit at the start of a revision or of an upstream tail (round 7): "0~rc1" is the
+	// number 0 followed by ~rc1, "~rc1" starts with the tilde itself
+	"1.0-0~rc1", "1.0-~rc1", "1.0-0", "2-0a", "2-a", "2-00", "2-0~", "2-~", "3.0a", "3.a", "3.00a",
 	"1:0", "1:1.0", "2:0", "1.0a", "1.0A", "1.0.", "1.0+", "1.0~", "1.0-a", "1.0-+", "1.0-~", "1a1", "1a01", "1a~", "1aa",
 }
 
@@ -92,7 +95,7 @@ func c02Pool(tier string, seed uint64) []model.Ver {
 	for _, s := range c02Specials {
 		add(splitText(s))
 	}
-	K := tierN(tier, 144, 224)
+	K := tierN(tier, 156, 236)
 	if tier == "thorough" {
 		for _, s := range gen.AllStrings(gen.ClassAlphabet, 1) {
 			add(model.Ver{Upstream: s})
